@@ -254,6 +254,7 @@ def run(ctx, rep):
     r02d(ctx, rep, cr)
     wal_rules.r02e(ctx, rep, ['TensorWal'])
     wal_rules.r02f(ctx, rep, ['TensorWal'])
+    wal_rules.r02g(ctx, rep, ['TensorWal'])
     if ctx.tier == 'thorough':
         wal_rules.r02b(ctx, rep, ['RaftWal', 'TxWal'])
         wal_rules.r02e(ctx, rep, ['RaftWal', 'TxWal'])
